@@ -39,6 +39,12 @@ NonDisks ==
      [name |-> "twotri", vpos |-> <<V3(0,0,0), V3(1,0,0), V3(0,1,0), V3(3,0,0), V3(4,0,0), V3(3,1,0)>>, faces |-> << <<0,1,2>>, <<3,4,5>> >>, planar |-> TRUE],
      [name |-> "annulus", vpos |-> GridV(3, 3), faces |-> GridF(3, 3, [k \in 1..9 |-> 0], {5}), planar |-> TRUE],
      [name |-> "fin", vpos |-> <<V3(0,0,0), V3(2,0,0), V3(1,2,0), V3(1,-2,0), V3(1,0,2)>>, faces |-> << <<0,1,2>>, <<1,0,3>>, <<0,1,4>> >>, planar |-> FALSE],
+     \* a disk with a closed pocket (a tetrahedron) glued on one of its interior edges: that edge is used by four faces, and the
+     \* only boundary is still the outline of the disk (so neither the loop count nor a face/edge count gives it away)
+     [name |-> "pocket", vpos |-> GridV(2, 2) \o <<V3(1,1,2), V3(2,2,2)>>,
+      faces |-> GridF(2, 2, [k \in 1..4 |-> 0], {}) \o << <<4,5,9>>, <<4,10,5>>, <<4,9,10>>, <<5,10,9>> >>, planar |-> FALSE],
+     [name |-> "hexpocket", vpos |-> HexV \o <<V3(2,2,2), V3(4,3,2)>>,
+      faces |-> HexF \o << <<0,1,7>>, <<0,8,1>>, <<0,7,8>>, <<1,8,7>> >>, planar |-> FALSE],
      [name |-> "bowtie", vpos |-> <<V3(2,2,0), V3(0,0,0), V3(2,0,0), V3(4,4,0), V3(2,4,0)>>, faces |-> << <<0,1,2>>, <<0,3,4>> >>, planar |-> TRUE]}
 
 \* vertex renumberings: identity, reversal, cyclic shifts, an interleaving
@@ -65,6 +71,10 @@ Cases ==
     {[m |-> "flatten", op |-> "flatten", wd |-> 5000, mesh |-> ms, T |-> Motions[t], T2 |-> Motions[(t % 3) + 1], disk |-> FALSE] : ms \in NonDisks, t \in 1..NPose} \cup
     \* the same disks at part sizes of 1e-5 and 1e3 units: acceptance and shape may not depend on the size
     UNION {{[m |-> "flatten", op |-> "flatten", wd |-> 5000, mesh |-> ms, T |-> Motions[1], T2 |-> Motions[2], disk |-> TRUE, sc |-> k] : k \in {-17, 10}} : ms \in Disks} \cup
+    \* the same disks far from the origin (2^20 and 2^24 lattice units: six and seven digits between position and feature size; the
+    \* second pose lies on the opposite side of the origin): acceptance and shape may not depend on the place
+    UNION {{[m |-> "flatten", op |-> "flatten", wd |-> 5000, mesh |-> ms, T |-> Motions[2], T2 |-> Motions[3], disk |-> TRUE, far |-> f]
+              : f \in {V3(1048576, -524288, 262144), V3(16777216, -8388608, 4194304)}} : ms \in Disks} \cup
     {[m |-> "flatten", op |-> "uv", wd |-> 5000, mesh |-> ms, T |-> Motions[t], disk |-> TRUE] : ms \in {x \in Disks : x.planar}, t \in 1..NPose} \cup
     \* the same maps stored with v pointing down (all uv triangles clockwise)
     {[m |-> "flatten", op |-> "uv", wd |-> 5000, mesh |-> ms, T |-> Motions[1], disk |-> TRUE, uvflip |-> 1] : ms \in {x \in Disks : x.planar}} \cup
